@@ -32,5 +32,5 @@ Why(c, prev) ==
 \cup (IF prev.h = c.h /\ prev.s + 1 = c.s /\ prev.post # c.pre THEN {"persistence"} ELSE {})
 
 Inv == k = 0 \/ LET w == Why(Cases[k], IF k = 1 THEN [h |-> -1, s |-> 0, post |-> <<>>] ELSE Cases[k - 1])
-                IN w = {} \/ PrintT(<<"BAD", k, w>>)
+                IN \A e \in w : PrintT(<<"BAD", k, e>>)     \* one short line per reason (TLC wraps long values)
 =============================================================================
